@@ -3,6 +3,7 @@ package main
 // intrinsics.go - engine models for leaf routines (assembly), sync, atomic, errors, misc.
 
 import (
+	"golang.org/x/tools/go/ssa"
 	"fmt"
 	"go/types"
 	"strings"
@@ -538,5 +539,25 @@ func init() {
 			in.storeLeaf(s.Cells[i], in.freshVar("rnd", 8))
 		}
 		return done(tuple(i64(s.Len), &IfaceV{}))
+	})
+}
+
+func init() {
+	// strings.ReplaceAll with single-byte old and new: exact byte-wise model, no forks.
+	reg("strings.ReplaceAll", func(in *Interp, g *Goroutine, c *callCtx) (Value, int) {
+		s, o, n := c.args[0].(*StrV), c.args[1].(*StrV), c.args[2].(*StrV)
+		if len(o.B) == 1 && len(n.B) == 1 {
+			out := &StrV{B: make([]*Term, len(s.B))}
+			for i, b := range s.B {
+				out.B[i] = Ite(Eq(b, o.B[0]), n.B[0], b)
+			}
+			return done(out)
+		}
+		// general case: run the real code
+		fr := in.pushFrame(g, c.fn, c.args, nil)
+		if c.instr != nil {
+			fr.call, _ = c.instr.(ssa.Value)
+		}
+		return nil, irPushed
 	})
 }
